@@ -1,5 +1,5 @@
 """Per-property claims (source of MANIFEST.json, regenerate with bin/mkmanifest.py)."""
-SOURCE_COMMITS = ["7e146d4", "9424340", "a1f5d2c", "8e587e5", "5690cd1", "d545c2f", "62723dc", "8131b7f", "100c501", "28b899b", "5d5fcc0", "dc78639", "f3454e3", "e1a045f", "3bd7141", "68fba81", "1f4c606", "2772037", "fd3af25", "c78d510", "fee30d6", "82e3cd8", "4fbdbe2"]   # fix: commits in /repo (no hook commits are needed)
+SOURCE_COMMITS = ["7e146d4", "9424340", "a1f5d2c", "8e587e5", "5690cd1", "d545c2f", "62723dc", "8131b7f", "100c501", "28b899b", "5d5fcc0", "dc78639", "f3454e3", "e1a045f", "3bd7141", "68fba81", "1f4c606", "2772037", "fd3af25", "c78d510", "fee30d6", "82e3cd8", "4fbdbe2", "d4c0819"]   # fix: commits in /repo (no hook commits are needed)
 
 _NOTE = ("Trusted: PyVC (interpreter, VC generation), z3, the numpy/builtins stubs (assumed contracts of dependencies, listed in the "
          "evidence), floats treated as reals except in comparisons, unbounded ints, partial correctness. ")
@@ -65,6 +65,6 @@ CHECKS["C04"] = {"category": "proof", "technique": "contract-based deductive ver
    "text": "FixedWidthBinning._force_bin_existence_single is verified for an unbounded (symbolic) bin count, width, origin, shift and value: value covered, grid and old "
            "bins kept, minimal growth, returned shift, caches invalidated -- every path, all inputs (reals). The adaptive arms of fill are additionally checked bounded "
            "(initial count <= 2, growth <= 4 bins per call) for 'contents stay on their interval' and 'nothing is lost'.",
-   "note": _NOTE + "Mode R: the rounding behaviour of floor/ceil on binary64 (e.g. width 0.1, value 1.7) is NOT decided by this check (see DESIGN.md, finding F6)."}
+   "note": _NOTE + "Mode R for the proofs. The rounding behaviour of floor/ceil on binary64 (e.g. width 0.1, value 1.7) is covered only by the decimal-literal cross-check on the real code (bounded stand-in, finding F6 fixed), not by proof."}
 CHECKS["C14"]["text"] += " Statistics clauses of Histogram1D.fill / fill_n / + / * / / / copy are attached to those functions (bounded)."
 NOT_APPLICABLE = {}
